@@ -169,4 +169,100 @@ theorem formerr_on_bad_ecs (mw : S_ratelimitmw_Middleware) (ctx rw req orig : Op
     (isBad = false → r.1 = orig ∧ "WriteMsg" ∉ names r.2 ∧ "NewRespRCode" ∉ names r.2) := by
   cases isBad <;> simp [Middleware_processLocationErr, callsOf, names, before]
 
+
+/-! ## The two caches: `get`, `itemFromCache`, `toCacheKey`, `set` -/
+
+/-- A look-up that misses, or hits an entry stored for another host name (hash collision), yields
+nothing; otherwise the entry. -/
+theorem itemFromCache_host_check (mw : S_ecscache_Middleware) (ctx cache : Option String) (key : Int)
+    (cr : S_ecscache_cacheRequest) (it : Option S_ecscache_cacheItem) (ok : Bool) :
+    Middleware_itemFromCache mw ctx cache key (some cr) (it, ok) =
+      match ok, it with
+      | false, _ => some (none, false, [("Get", [toString cache, toString key])])
+      | true, none => none
+      | true, some i => some (if i.host = cr.host then (some i, true, [("Get", [toString cache, toString key])])
+                              else (none, false, [("Get", [toString cache, toString key])])) := by
+  unfold Middleware_itemFromCache
+  cases ok <;> cases it <;> simp
+  split <;> simp_all
+
+/-- The plain cache is asked first, with the key computed for "not ECS-dependent"; a hit there is
+returned as not ECS-dependent and the ECS cache is not consulted. -/
+theorem get_plain_hit (mw : S_ecscache_Middleware) (ctx req : Option String) (cr : S_ecscache_cacheRequest)
+    (k1 k2 : Int) (it : Option S_ecscache_cacheItem) (i2 : Option S_ecscache_cacheItem × Bool) (m1 m2 : Option String) :
+    ∃ tr, Middleware_get mw ctx req (some cr) k1 (it, true) m1 k2 i2 m2 = some (m1, false, tr) ∧
+      callsOf "toCacheKey" tr = [[reprStr (some cr), toString false]] ∧
+      callsOf "itemFromCache" tr = [[toString ctx, toString mw.cache, toString k1, reprStr (some cr)]] := by
+  simp [Middleware_get, callsOf]
+
+/-- A client that opted out (`isECSDeclined`) and misses the plain cache gets nothing: the cache of
+subnet-scoped answers is never consulted for it. -/
+theorem get_declined_never_ecs_cache (mw : S_ecscache_Middleware) (ctx req : Option String) (cr : S_ecscache_cacheRequest)
+    (hd : cr.isECSDeclined = true)
+    (k1 k2 : Int) (it : Option S_ecscache_cacheItem) (i2 : Option S_ecscache_cacheItem × Bool) (m1 m2 : Option String) :
+    ∃ tr, Middleware_get mw ctx req (some cr) k1 (it, false) m1 k2 i2 m2 = some (none, false, tr) ∧
+      callsOf "itemFromCache" tr = [[toString ctx, toString mw.cache, toString k1, reprStr (some cr)]] ∧
+      callsOf "toCacheKey" tr = [[reprStr (some cr), toString false]] := by
+  simp [Middleware_get, callsOf, hd]
+
+/-- Otherwise the ECS cache is asked second, with the key computed for "ECS-dependent" from the same
+cache request; the answer is ECS-dependent exactly if that look-up hits. -/
+theorem get_ecs_second (mw : S_ecscache_Middleware) (ctx req : Option String) (cr : S_ecscache_cacheRequest)
+    (hd : cr.isECSDeclined = false)
+    (k1 k2 : Int) (it it2 : Option S_ecscache_cacheItem) (ok2 : Bool) (m1 m2 : Option String) :
+    ∃ tr, Middleware_get mw ctx req (some cr) k1 (it, false) m1 k2 (it2, ok2) m2 =
+        some (if ok2 then m2 else none, ok2, tr) ∧
+      callsOf "toCacheKey" tr = [[reprStr (some cr), toString false], [reprStr (some cr), toString true]] ∧
+      callsOf "itemFromCache" tr = [[toString ctx, toString mw.cache, toString k1, reprStr (some cr)],
+        [toString ctx, toString mw.ecsCache, toString k2, reprStr (some cr)]] := by
+  cases ok2 <;> simp [Middleware_get, callsOf, hd]
+
+theorem get_total (mw : S_ecscache_Middleware) (ctx req : Option String) (cr : S_ecscache_cacheRequest)
+    (k1 k2 : Int) (i1 i2 : Option S_ecscache_cacheItem × Bool) (m1 m2 : Option String) :
+    Middleware_get mw ctx req (some cr) k1 i1 m1 k2 i2 m2 ≠ none := by
+  unfold Middleware_get
+  cases h1 : i1.2 <;> cases hd : cr.isECSDeclined <;> cases h2 : i2.2 <;> simp [h1, hd, h2]
+
+/-- What is hashed into a cache key.  Always: the host name first, question type and class, the DO
+flag, the family flag (`Is6` of the address of `cr.subnet`).  For the ECS cache in addition all
+bytes of that address and the prefix length, and *not* the opt-out flag; for the plain cache the
+opt-out flag and nothing of the subnet. -/
+theorem toCacheKey_hashed (mw : S_ecscache_Middleware) (cr : S_ecscache_cacheRequest) (dep : Bool)
+    (ws : Int × Option String) (b1 b2 b3 : List Int) (n1 : Int) (addr : String) (n2 : Int)
+    (w1 w2 : Int × Option String) (wb1 : Option String) (sum : Int) (wb2 : Option String) :
+    ∃ tr, Middleware_toCacheKey mw (some cr) dep ws b1 b2 n1 addr n2 w1 b3 w2 wb1 sum wb2 = some (sum, tr) ∧
+      callsOf "WriteString" tr = [[toString (some ""), cr.host]] ∧
+      before "WriteString" "Write" (names tr) = true ∧
+      callsOf "PutUint16" tr = [["binary.LittleEndian", toString b1, toString cr.qType],
+                                 ["binary.LittleEndian", toString b2, toString cr.qClass]] ∧
+      callsOf "BoolToNumber" tr = [[toString cr.reqDO], [addr ++ ".Is6" ++ "(" ++ ")"]] ∧
+      callsOf "Addr" tr = [[cr.subnet]] ∧
+      (dep = true → callsOf "Write" tr = [[toString (some ""), toString b3], [toString (some ""), addr ++ ".AsSlice" ++ "(" ++ ")"]] ∧
+          callsOf "WriteByte" tr = [[toString (some ""), "byte" ++ "(" ++ (cr.subnet ++ ".Bits" ++ "(" ++ ")") ++ ")"]]) ∧
+      (dep = false → callsOf "Write" tr = [[toString (some ""), toString b3]] ∧
+          callsOf "WriteByte" tr = [[toString (some ""), "mathutil.BoolToNumber[byte]" ++ "(" ++ toString cr.isECSDeclined ++ ")"]]) := by
+  cases dep <;> simp [Middleware_toCacheKey, callsOf, names, before]
+
+/-- Nothing is stored for an answer with TTL 0 or one that is not cacheable. -/
+theorem set_uncacheable (mw : S_ecscache_Middleware) (resp : Option String) (cr : Option S_ecscache_cacheRequest)
+    (dep : Bool) (ttl : Int) (cacheable : Bool) (rcode key : Int) (clone : Option String)
+    (h : ttl = 0 ∨ cacheable = false) :
+    ∀ tr, Middleware_set mw resp cr dep ttl cacheable rcode key clone = some tr → "SetWithExpire" ∉ names tr := by
+  intro tr
+  have : (decide (ttl = 0) || !cacheable) = true := by rcases h with h | h <;> simp [h]
+  simp [Middleware_set, this]
+  intro h; subst h; simp [names]
+
+/-- A cacheable answer goes to the ECS cache iff it is ECS-dependent, to the plain cache otherwise,
+under the key `toCacheKey(cr, dependent)` of the storing request. -/
+theorem set_chooses_cache (mw : S_ecscache_Middleware) (resp : Option String) (cr : S_ecscache_cacheRequest)
+    (dep : Bool) (ttl : Int) (rcode key : Int) (clone : Option String) (h : ttl ≠ 0) :
+    ∃ tr e, Middleware_set mw resp (some cr) dep ttl true rcode key clone = some tr ∧
+      callsOf "toCacheKey" tr = [[reprStr (some cr), toString dep]] ∧
+      callsOf "SetWithExpire" tr = [[toString (if dep then mw.ecsCache else mw.cache), toString key,
+        "toCacheItem" ++ "(" ++ toString clone ++ "," ++ cr.host ++ ")", e]] := by
+  have : decide (ttl = 0) = false := by simp [h]
+  cases dep <;> by_cases h2 : (mw.overrideTTL && !decide (rcode = 2)) = true <;>
+    simp [Middleware_set, callsOf, this, h2]
+
 end Agd.Tie.TrC05
